@@ -161,6 +161,10 @@ impl<'a> Runner<'a> {
             p2[l - 1] ^= 0x01;
         }
         bind.atoms.insert("prologue2".into(), p2);
+        // "prologue3": the same bytes followed by one zero byte
+        let mut p3 = crate::eval::junk_bytes(inst.seed, "atom:prologue", inst.prologue_len);
+        p3.push(0);
+        bind.atoms.insert("prologue3".into(), p3);
         bind.atoms.insert("name".into(), inst.name_for("*").as_bytes().to_vec());
         if scn.get("name2").is_some() {
             bind.atoms.insert("name2".into(), inst.name_for("R").as_bytes().to_vec());
